@@ -457,3 +457,81 @@ B("C29", "fn-pointer-params-covariant", "chalk-ir/src/zip.rs",
             zipper,
             variance,
             &a.0.as_slice(interner)[..a.0.len(interner) - 1],""", "C29.POSITIONS:FnSubst")
+
+# ================================================================ added in the build round, second pass
+B("C03", "positive-cycle-drops-strand", "chalk-engine/src/logic.rs",
+  """        let table = self.stack.top().table;
+        self.forest.tables[table].enqueue_strand(canonical_strand);
+
+        // The strand isn't active, but the table is, so just continue""",
+  """        let table = self.stack.top().table;
+        let _ = table;
+        drop(canonical_strand);
+
+        // The strand isn't active, but the table is, so just continue""", "C03.STRAND-CONSERVED:on_positive_cycle")
+B("C03", "next-answer-strand-same-index", "chalk-engine/src/logic.rs",
+  """                let mut next_subgoal = selected_subgoal.clone();
+                next_subgoal.answer_index.increment();""",
+  """                let next_subgoal = selected_subgoal.clone();""", "C03.NEXT-ANSWER")
+for _p in ("C01", "C04"):
+    B(_p, "answer-substitutor-ignores-slice-element", "chalk-engine/src/slg/resolvent.rs",
+      "            (TyKind::Slice(ty_a), TyKind::Slice(ty_b)) => Zip::zip_with(self, variance, ty_a, ty_b),",
+      "            (TyKind::Slice(_), TyKind::Slice(_)) => Ok(()),", "ANSWER-SUBST:zip_tys:(Slice,Slice)")
+B("C06", "implied-bound-loop-skips", "chalk-solve/src/clauses/program_clauses.rs",
+  """            for qwc in where_clauses {
+                builder.push_binders(qwc, |builder, wc| {
+                    builder.push_clause(
+                        wc.into_from_env_goal(interner),""",
+  """            for qwc in where_clauses {
+                if qwc.trait_id().is_none() {
+                    continue;
+                }
+                builder.push_binders(qwc, |builder, wc| {
+                    builder.push_clause(
+                        wc.into_from_env_goal(interner),""", "C06.ELAB:TraitDatum:implied-bound-loop-total")
+B("C07", "first-impl-with-value-wins", "chalk-solve/src/clauses.rs",
+  """            atv.to_program_clauses(builder, environment);
+        }""",
+  """            atv.to_program_clauses(builder, environment);
+            break;
+        }""", "C07.EVERY-IMPL")
+B("C09", "const-identity-always-trivial", "chalk-recursive/src/fulfill.rs",
+  "            GenericArgData::Const(t) => is_trivial(t.bound_var(interner)),",
+  "            GenericArgData::Const(_) => true,", "C09.FULFILL-PROGRESS:is_trivial_canonical_subst:Const")
+B("C09", "fixed-point-needs-ambiguity", "chalk-recursive/src/recursive.rs",
+  "        old_answer == current_answer || {", "        old_answer == current_answer && {", "C09.FIXED-POINT-TABLE")
+for _p in ("C01", "C05"):
+    B(_p, "fixed-point-on-any-error", "chalk-recursive/src/recursive.rs",
+      """                Ok(s) => s.is_ambig(),
+                Err(_) => false,""",
+      """                Ok(s) => s.is_ambig(),
+                Err(_) => true,""", "FIXED-POINT-TABLE:reached_fixed_point:(Unique,Err,different)")
+for _p in ("C10", "C17"):
+    B(_p, "any-future-answer-looks-at-one-cached-answer", "chalk-engine/src/logic.rs",
+      """            if test(&answer.subst.value.subst) {
+                return true;
+            }
+            answer_index.increment();
+        }""",
+      """            if test(&answer.subst.value.subst) {
+                return true;
+            }
+            break;
+        }""", "ANY-FUTURE:any_future_answer:all-cached-answers")
+B("C17", "placeholder-universe-only", "chalk-engine/src/slg/aggregate.rs",
+  "        if index1 != index2 {", "        if index1.ui != index2.ui {", "C17.LEAF-EQUALITY")
+B("C19", "children-keep-parent-priority", "chalk-solve/src/coherence.rs",
+  "            self.set_priorities(child_idx, forest, p + 1, map);", "            self.set_priorities(child_idx, forest, p, map);",
+  "C19.PRIORITIES:set_priorities:every-child-gets-p+1")
+B("C21", "collector-breaks-on-type-parameter", "chalk-solve/src/wf.rs",
+  "            TyKind::BoundVar(..) => ControlFlow::Continue(()),", "            TyKind::BoundVar(..) => ControlFlow::Break(()),", "C21.COLLECT-ALL")
+B("C23", "env-elaboration-forwarded", "chalk-solve/src/logging_db.rs",
+  "        crate::clauses::program_clauses_for_env(self, environment)", "        self.ws.db().program_clauses_for_env(environment)", "C23.NO-BYPASS")
+B("C29", "no-outlives-under-invariance", "chalk-solve/src/infer/unify.rs",
+  """                if a != b {
+                    self.push_lifetime_outlives_goals(variance, a.clone(), b.clone());""",
+  """                if a != b && variance != Variance::Invariant {
+                    self.push_lifetime_outlives_goals(variance, a.clone(), b.clone());""", "C29.LIFETIME-LEAVES")
+B("C11", "cache-despite-interruption", "chalk-recursive/src/fixed_point.rs",
+  "                    Some(cache) if !interrupted => {", "                    Some(cache) if !interrupted || true => {",
+  "C11.NO-TAINTED-CACHE:rec::fixed_point::RecursiveContext::solve_goal:move_to_cache")
